@@ -455,3 +455,51 @@ def ob_step_ever(rowD: bool, rowA: bool, rowB: bool, pD0: bool, pD1: bool, pA0: 
             return name in w.ever.get(now, ())
         finally:
             w.close()
+
+
+# ----------------------------------------------------------------------------------------------- names that differ only in case
+_CASE_NAMES = [("Work", "work"), ("llx-AbCd...", "llx-abcd..."), ("Jane@Example.com", "jane@example.com")]
+
+
+@obligation(quick=120, thorough=300,
+            what="two profiles of ONE environment whose names differ only in case (the table's key is case-sensitive, so both can exist: one of them "
+                 "provisioned while ANOTHER environment was current, the other created / selected by the user in this one): the active "
+                 "profile is exactly the one that was selected or created while this environment was current, never its look-alike",
+            bounds={"name pairs": 3, "which spelling is the provisioned one": "both", "row order": "provisioned first / last",
+                    "user action": "create (ConfigManager.create_profile while current) / select (set_current_profile)"})
+def ob_names_differing_in_case(pair: int, swap: bool, prov_first: bool, act: int) -> bool:
+    """
+    pre: 0 <= pair < len(_CASE_NAMES) and 0 <= act <= 1
+    post: _
+    """
+    pair, act = cint(pair, 0, len(_CASE_NAMES) - 1), cint(act, 0, 1)
+    swap, prov_first = cbool(swap), cbool(prov_first)
+    with untraced():
+        w = World()
+        try:
+            cm = w.cm
+            a, b = _CASE_NAMES[pair]
+            prov, mine = (b, a) if swap else (a, b)
+            cm.create_or_update_environment(U[1], False)
+            # the look-alike is put into environment A while the DEFAULT environment is current (an import, another terminal)
+            if prov_first:
+                cm.create_profile(prov, U[1], "proj", KEY[1])
+            if act == 1 and not prov_first:
+                cm.create_profile(mine, U[1], "proj", KEY[1])       # exists already, provisioned as well; the user will SELECT it below
+                cm.create_profile(prov, U[1], "proj", KEY[1])
+            elif act == 1:
+                cm.create_profile(mine, U[1], "proj", KEY[1])
+            w.env.switch_environment(U[1])
+            svc = w.env.current_auth_service()
+            if act == 0:
+                cm.create_profile(mine, U[1], "proj", KEY[1])       # created while A is current ...
+                if not prov_first:
+                    w.env.switch_environment(U[0])
+                    cm.create_profile(prov, U[1], "proj", KEY[1])   # ... the look-alike arrives later, while A is not current
+                    w.env.switch_environment(U[1])
+                    svc = w.env.current_auth_service()
+            svc.set_current_profile(mine)                           # selected while A is current
+            got = svc.get_current_profile()
+            return got is not None and got.name == mine and got.api_url == U[1]
+        finally:
+            w.close()
